@@ -89,7 +89,7 @@ ENUM_NODES = {
     "i": {"inline": True, "group": "inline"},
 }
 ATOMS = ["a", "b", "c", "g", "h", "text", "inline", "nosuch"]
-UNARY = ["+", "*", "?", "{2}", "{1,2}", "{2,}", "{0,1}", "{0,}"]
+UNARY = ["+", "*", "?", "{2}", "{1,2}", "{1,}", "{2,}", "{0,1}", "{0,}"]
 
 
 def enum_exprs(depth):
@@ -150,7 +150,8 @@ def run(ctx):
             parts.append(rng.choice(names) + rng.choice(["", "?", "{7}"]))
         return " ".join(parts)
     exprs = exprs + [long_expr() for _ in range(ctx.budget(25, 200))]
-    exprs = list(dict.fromkeys(exprs + MALFORMED + NON_PLAIN))
+    # aimed: a repetition as the first thing of a choice alternative or of a repeated body
+    exprs = list(dict.fromkeys(exprs + schemas.aimed_op_exprs("a", "b") + schemas.aimed_op_exprs("g", "b") + MALFORMED + NON_PLAIN))
     for e in exprs:
         nodes = {k: dict(v) for k, v in ENUM_NODES.items()}
         nodes["doc"] = {"content": e}
@@ -162,6 +163,17 @@ def run(ctx):
             # not a refusal of the expression: such expressions are counted and left out of the accept/reject comparison
             ctx.count("schema-build:python-recursion-limit")
             continue
+        pools.append(("enum", spec, s if st == "ok" else None, False))
+    # aimed: schemas with the *same node names and the same content strings* as the ones above but other group / inline /
+    # attribute assignments, built later in the same process — a matcher must not be reused across schemas
+    for e in ["g+", "h+", "g h", "(g | h)*", "g{2}", "h g?", "a g", "g", "h*", "(a | h)+"]:
+        nodes = {"doc": {"content": e}, "a": {"group": "h"}, "b": {"group": "g"}, "c": {"group": "g"},
+                 "d": {"group": "h g", "attrs": {"x": {}}}, "text": {"group": "inline"}, "i": {"inline": True, "group": "inline"}}
+        spec = {"nodes": nodes}
+        st, s = outcome(lambda: Schema(spec))
+        if st == "internal" and "RecursionError" in str(s):
+            continue
+        ctx.count("twin-schemas:" + ("accepted" if st == "ok" else "refused"))
         pools.append(("enum", spec, s if st == "ok" else None, False))
     ctx.notes.append(f"{len(exprs)} enumerated/malformed expressions over the alphabet a b c(text) + groups g h inline")
     for name, spec, schema, bundled in pools:
